@@ -64,7 +64,7 @@ CHECKS = {
     'C19': dict(engine='E1-kani', technique='bounded model checking (Kani/CBMC, CaDiCaL) of the C02..C10 harnesses re-instantiated in hostile naming contexts',
                 text='User identifiers harvested on each run from the quote!/format_ident! templates of /repo/src are used as field, variant and parameter names, and the derive site is placed in a module shadowing Option/Some/None/Result/Ok/Err/Ordering/Clone/Default/Debug/core/std/... (also: inherent methods named like the trait methods, raw-identifier field names, custom methods imported under the names of generated locals, user macros named like the std macros used); CBMC decides behaviour still equals the oracle for all values in each context. A context that does not compile is surfaced as a compiler verdict (not a solver obligation).',
                 ref='DESIGN.md §4 C19',
-                note=E1_NOTE + ' Compile verdicts of hostile contexts are rustc\'s; #![no_std] is emulated by renaming `std` at the harness crate root (`extern crate educe as std;`), so any `::std::` path of generated code fails to resolve. Two open known findings (type parameter named like the generated hasher generic; custom method path named like a generated parameter / local).'),
+                note=E1_NOTE + ' Compile verdicts of hostile contexts are rustc\'s; #![no_std] is emulated by renaming `std` at the harness crate root (`extern crate educe as std;`), so any `::std::` path of generated code fails to resolve. Three open known findings (type parameter named like the generated hasher generic; custom method path named like a generated parameter / local; field type named like the generated Debug helper struct).'),
     'C20': dict(engine='E1-kani', technique='bounded model checking (Kani/CBMC, CaDiCaL) of the generated union eq/hash/clone/default/fmt over arbitrary bytes',
                 text='For every union layout in the grammar (sizes 1..8, alignments 1..8, with and without padding, one generic) CBMC decides for every byte pattern that == is equality of the size_of::<Self>() bytes, hash feeds exactly those bytes as one slice, clone is a bitwise copy, default initialises the designated field from its own source; Debug equals debug_tuple(name).field(&bytes) / Debug::fmt(bytes) on fixed byte patterns in both modes and on arbitrary bytes for size 1.',
                 ref='DESIGN.md §4 C20',
